@@ -46,19 +46,86 @@ def run(repo, rep, tier):
     ok = body == ["self._max_id += 1", "self._objects[PACKAGE_ID].last_object_identifier = self._max_id", "return self._max_id"]
     rep.ob("C07.R1", nm, "new_message_id: increment, record as last_object_identifier, return", ok,
            "" if ok else f"found {body}: a new id must be above every earlier one and recorded as the high-water mark on every path", key="C07.R1@new_message_id")
+    from ..symexec import Straight, body_paths, bool_atoms, bool_eval, expand_aliases
+    import itertools
     init = repo.func("containers.py", "ObjectStore.__init__")
-    src = U(init).replace(" ", "")
-    ok = "self._max_id=max(self._objects.keys())" in src and "self._max_id=math.ceil(self._max_id/1000000)*1000000" in src
-    rep.ob("C07.R1", init, "counter starts at or above the largest loaded identifier (rounded up)", ok, "", key="C07.R1@init:start")
+    sl = Straight(init)
+    final = sl.final.get("self._max_id")
+    ok = False
+    detail = f"the counter ends __init__ as `{U(final) if final is not None else '?'}`"
+    if final is not None:
+        big = ("max(self._objects.keys())", "max(self._objects)")
+        t = U(final).replace(" ", "")
+        if t in big:
+            ok = True
+        elif isinstance(final, ast.BinOp) and isinstance(final.op, ast.Mult):
+            for c_, k_ in ((final.left, final.right), (final.right, final.left)):
+                kv = try_const(k_, env)
+                if isinstance(c_, ast.Call) and last_attr(c_.func) == "ceil" and len(c_.args) == 1 and isinstance(kv, int) and kv > 0:
+                    d = c_.args[0]
+                    ok = isinstance(d, ast.BinOp) and isinstance(d.op, ast.Div) and U(d.left).replace(" ", "") in big and try_const(d.right, env) == kv
+    rep.ob("C07.R1", init, "counter starts at or above the largest loaded identifier (rounded up)", ok, "" if ok else detail + ": new identifiers can collide with loaded ones", key="C07.R1@init:start")
     co = repo.func("containers.py", "ObjectStore.create_object_from_dict")
-    s = U(co)
-    ok = "new_id = self.new_message_id()" in s and "create_iwa_segment(new_id, cls, object_dict)" in s and "self._objects[new_id] = cls(**object_dict)" in s \
-        and "self._object_to_filename_map[new_id] = iwa_pathname" in s
-    rep.ob("C07.R1", co, "created objects take their id from new_message_id and are registered under it", ok, "", key="C07.R1@create:id")
+    ids = [n for n in body_walk(co) if isinstance(n, ast.Assign) and isinstance(n.value, ast.Call) and U(n.value.func) == "self.new_message_id" and isinstance(n.targets[0], ast.Name)]
+    probs = []
+    if len(ids) != 1:
+        probs.append("the id is not taken from new_message_id() exactly once")
+        nid = "?"
+    else:
+        nid = ids[0].targets[0].id
+        cp_ = [a.arg for a in co.args.args]
+        seg_calls = [c for c in body_walk(co) if isinstance(c, ast.Call) and call_name(c) == "create_iwa_segment"]
+        if not (len(seg_calls) == 1 and [U(a) for a in seg_calls[0].args] == [nid, cp_[3], cp_[2]]):
+            probs.append("the segment is not created for the new id, class and dict")
+        reg = [n for n in body_walk(co) if isinstance(n, ast.Assign) and isinstance(n.targets[0], ast.Subscript) and U(n.targets[0].value) == "self._objects"]
+        obj_t = f"{cp_[3]}(**{cp_[2]})"
+        if not (len(reg) == 1 and U(reg[0].targets[0].slice) == nid and U(expand_values(co, reg[0].value)).replace(" ", "") == obj_t):
+            probs.append("the new object is not registered under the new id")
+        fmap = [n for n in body_walk(co) if isinstance(n, ast.Assign) and isinstance(n.targets[0], ast.Subscript) and U(n.targets[0].value) == "self._object_to_filename_map"]
+        if not (len(fmap) == 1 and U(fmap[0].targets[0].slice) == nid):
+            probs.append("the new id is not mapped to its archive file")
+        rets = [n for n in body_walk(co) if isinstance(n, ast.Return)]
+        if not (len(rets) == 1 and isinstance(rets[0].value, ast.Tuple) and U(rets[0].value.elts[0]) == nid
+                and U(expand_values(co, rets[0].value.elts[1])).replace(" ", "") in (obj_t, f"self._objects[{nid}]")):
+            probs.append("the method does not return (new id, registered object)")
+    rep.ob("C07.R1", co, "created objects take their id from new_message_id and are registered under it", not probs, "; ".join(probs), key="C07.R1@create:id")
     # the segment is stored either in a new file or appended to the existing one
-    ok = "self._file_store[iwa_pathname] = IWAFile.from_dict(chunks)" in s and "self._file_store[iwa_pathname].chunks[0].archives.append(iwa_segment)" in s \
-        and "iwa_pathname = iwa_file.format(new_id) + '.iwa'" in s
-    rep.ob("C07.R1", co, "segment stored in a new archive file named after the id, or appended to the existing file", ok, "", key="C07.R1@create:store")
+    probs = []
+    branch = [n for n in co.body if isinstance(n, ast.If) and any(isinstance(x, ast.Call) and U(x.func) == "IWAFile.from_dict" for x in ast.walk(n))]
+    if len(branch) != 1:
+        probs.append("the create-or-append decision is not a single if statement")
+    else:
+        paths = body_paths([branch[0]])
+        atoms = sorted(set().union(*[bool_atoms(t) for c, _s, _e in paths for t, _o in c])) if paths else []
+        pname = None
+        for c, steps, _e in paths:
+            creates = any(isinstance(x, ast.Call) and U(x.func) == "IWAFile.from_dict" for st_ in steps for x in ast.walk(st_))
+            appends = any(isinstance(x, ast.Call) and last_attr(x.func) == "append" and U(x.func.value).endswith(".chunks[0].archives") for st_ in steps for x in ast.walk(st_))
+            if creates == appends:
+                probs.append("a branch neither creates the file nor appends to it (or does both)")
+                continue
+            for vals in itertools.product([False, True], repeat=len(atoms)):
+                asg = dict(zip(atoms, vals))
+                taken = all(bool_eval(t, asg) == o for t, o in c)
+                if not taken:
+                    continue
+                none_atoms = [k for k in atoms if k.endswith(" is None")]
+                other = [k for k in atoms if not k.endswith(" is None")]
+                if len(none_atoms) != 1 or len(other) != 1:
+                    probs.append(f"the decision depends on {atoms}, not on (no file found, append)")
+                    break
+                want_create = asg[none_atoms[0]] and not asg[other[0]]
+                pname = none_atoms[0][: -len(" is None")]
+                if creates != want_create:
+                    probs.append(f"with {asg} the method {'creates a new file' if creates else 'appends to the found file'}")
+            if creates:
+                nm_ = [n for st_ in steps for n in ast.walk(st_) if isinstance(n, ast.Assign) and pname and U(n.targets[0]) == pname]
+                ok_name = bool(nm_) and U(nm_[0].value).replace(" ", "").replace('"', "'") == f"{co.args.args[1].arg}.format({nid})+'.iwa'"
+                stored = [n for st_ in steps for n in ast.walk(st_) if isinstance(n, ast.Assign) and isinstance(n.targets[0], ast.Subscript)
+                          and U(n.targets[0].value) == "self._file_store" and pname and U(n.targets[0].slice) == pname]
+                if not (ok_name and stored):
+                    probs.append("the new archive file is not named after the id and stored under that name")
+    rep.ob("C07.R1", co, "segment stored in a new archive file named after the id, or appended to the existing file", not probs, "; ".join(dict.fromkeys(probs)), key="C07.R1@create:store")
     seg = repo.func("iwafile.py", "create_iwa_segment")
     ok = "'identifier': str(obj_id)" in U(seg) and "NAME_ID_MAP[full_name]" in U(seg)
     rep.ob("C07.R1", seg, "segment header carries the object's id and registered type", ok, "", key="C07.R1@segment:header")
@@ -79,13 +146,26 @@ def run(repo, rep, tier):
     rep.ob("C07.R1", co, f"objects registered only at load and at creation ({sorted(stores)})", ok, "", key="C07.R1@objects:writers")
     # update_object_file_store copies every object back
     uo = repo.func("containers.py", "ObjectStore.update_object_file_store")
-    ok = "for obj_id in self._objects" in U(uo) and "copy_object_to_iwa_file(self._file_store[self._object_to_filename_map[obj_id]], self._objects[obj_id], obj_id)" in U(uo)
+    from ..symexec import loop_domain
+    loops = [n for n in body_walk(uo) if isinstance(n, ast.For)]
+    ok = False
+    if len(loops) == 1:
+        lp = loops[0]
+        it = U(lp.iter).replace(" ", "")
+        idv = objv = None
+        if it in ("self._objects", "self._objects.keys()", "list(self._objects)") and isinstance(lp.target, ast.Name):
+            idv = lp.target.id
+        elif it == "self._objects.items()" and isinstance(lp.target, ast.Tuple) and len(lp.target.elts) == 2:
+            idv, objv = U(lp.target.elts[0]), U(lp.target.elts[1])
+        calls = [c for c in ast.walk(lp) if isinstance(c, ast.Call) and call_name(c) == "copy_object_to_iwa_file"]
+        uncond = not any(isinstance(n, (ast.If, ast.Continue, ast.Break, ast.Try)) for n in ast.walk(lp))
+        if idv and len(calls) == 1 and len(calls[0].args) == 3 and not calls[0].keywords and uncond:
+            a0, a1, a2 = [U(expand_aliases(uo, a)).replace(" ", "") for a in calls[0].args]
+            ok = a0 == f"self._file_store[self._object_to_filename_map[{idv}]]" and a1 in ((objv,) if objv else ()) + (f"self._objects[{idv}]",) and a2 == idv
     rep.ob("C07.R1", uo, "every object is copied back into the archive file it belongs to", ok, "", key="C07.R1@copy-back")
     cp = repo.func("iwafile.py", "copy_object_to_iwa_file")
-    s = U(cp)
-    ok = "archive.header.identifier == obj_id" in s and "archive.objects[0].CopyFrom(obj)" in s and "find_references(archive.objects[0], references)" in s \
-        and "msg_info.object_references.append(reference)" in s and "msg_info.object_references.pop()" in s
-    rep.ob("C07.R1", cp, "copy-back refreshes the object_references of the rewritten object", ok, "", key="C07.R1@copy-back:references")
+    probs = _copy_back_problems(cp)
+    rep.ob("C07.R1", cp, "copy-back refreshes the object_references of the rewritten object", not probs, "; ".join(probs), key="C07.R1@copy-back:references")
 
     # ---- R2 new archive files are inventoried
     n_sites = 0
@@ -129,112 +209,129 @@ def run(repo, rep, tier):
     hr = enc.header.get("return")
     ok = bool(hr) and hr[2].replace(" ", "") in ("storage[0:length]", "storage[:length]")
     rep.ob("C07.R3", hr[0] if hr else enc.func, "record returned is exactly `length` bytes", ok, "", key="C07.R3@record:length")
-    rri = repo.func("model.py", "_NumbersModel.recalculate_row_info")
-    g = cfgmod.build(rri)
-    store = [n for n in body_walk(rri) if isinstance(n, ast.Assign) and U(n.targets[0]) == "offsets[col]"]
-    adv = [n for n in body_walk(rri) if isinstance(n, ast.AugAssign) and U(n.target) == "current_offset"]
-    app = [n for n in body_walk(rri) if isinstance(n, ast.AugAssign) and U(n.target) == "cell_storage"]
-    cnt = [n for n in body_walk(rri) if isinstance(n, ast.AugAssign) and U(n.target) == "row_info.cell_count"]
-    ok = len(store) == 1 and len(adv) == 1 and len(app) == 1 and len(cnt) == 1
-    if ok:
-        ok = U(adv[0].value) == "len(buffer)" and U(app[0].value) == "buffer" and "current_offset" in U(store[0].value) \
-            and g.dominates(g.node_of(store[0]), g.node_of(adv[0])) and try_const(cnt[0].value) == 1
-        same_guard = all(getattr(x, "_parent", None) is getattr(store[0], "_parent", None) for x in (adv[0], app[0], cnt[0]))
-        par = getattr(store[0], "_parent", None)
-        ok = ok and same_guard and isinstance(par, ast.If) and U(par.test).replace(" ", "") == "bufferisnotNone"
-    rep.ob("C07.R3", rri, "per emitted record: offset stored, then buffer appended, cursor advanced by its length, cell_count + 1", ok,
-           "" if ok else "offsets, buffer and cell count can disagree (overlapping or out-of-bounds records)", key="C07.R3@row:accounting")
-    s = U(rri).replace(" ", "")
-    ok = "offsets=[-1]*len(data[0])" in s and "current_offset=0" in s and "forcolinrange(len(data[row]))" in s and "buffer=data[row][col]._to_buffer()" in s
-    rep.ob("C07.R3", rri, "one offset slot per column, cursor from 0, columns in order", ok, "", key="C07.R3@row:init")
-    ok = "row_info.cell_offsets=pack(f'<{len(offsets)}h',*offsets)" in s and "row_info.cell_storage_buffer=cell_storage" in s
-    rep.ob("C07.R3", rri, "offsets and buffer written to the row record", ok, "", key="C07.R3@row:fields")
+    from ..rowpack import model as rowpack_model
+    rp = rowpack_model(repo)
+    rri = rp["func"]
+    acc = [x for x in rp["problems"] if any(k in x for k in ("offset store", "runs after", "without a record", "no path of the loop", "scaled by a power", "leaves the loop"))]
+    rep.ob("C07.R3", rp["loop"], "per emitted record: offset stored, then buffer appended, cursor advanced by its length, cell_count + 1", not acc,
+           "" if not acc else "; ".join(acc) + ": offsets, buffer and cell count can disagree (overlapping or out-of-bounds records)", key="C07.R3@row:accounting")
+    ini = [x for x in rp["problems"] if any(k in x for k in ("starts a", "cell loop runs over", "not the cell at", "cell_count is"))]
+    rep.ob("C07.R3", rri, "one offset slot per column, cursor from 0, columns in order", not ini, "; ".join(ini), key="C07.R3@row:init")
+    fld = [x for x in rp["problems"] if any(k in x for k in ("cell_offsets is not", "cell_storage_buffer is not"))]
+    rep.ob("C07.R3", rri, "offsets and buffer written to the row record", not fld, "; ".join(fld), key="C07.R3@row:fields")
+    unclassified = [x for x in rp["problems"] if x not in acc and x not in ini and x not in fld]
+    if unclassified:
+        rep.ob("C07.R3", rri, "row packer", False, "; ".join(unclassified), key="C07.R3@row:other")
 
-    # ---- R4 tile arithmetic
-    rtd = repo.func("model.py", "_NumbersModel.recalculate_table_data")
-    s = U(rtd).replace(" ", "")
-    MT = env.get("MAX_TILE_SIZE")
-    if not isinstance(MT, int):
-        raise AnalysisError("MAX_TILE_SIZE is not a foldable int")
-    # shift agrees with the tile size
-    sh = None
-    for n in body_walk(rtd):
-        if isinstance(n, ast.Assign) and U(n.targets[0]) == "max_tile_idx":
-            v = n.value
-            if isinstance(v, ast.BinOp) and isinstance(v.op, ast.RShift) and U(v.left) == "len(data)":
-                sh = try_const(v.right)
-            elif isinstance(v, ast.BinOp) and isinstance(v.op, ast.FloorDiv) and U(v.left) == "len(data)":
-                d = try_const(v.right, env)
-                sh = d.bit_length() - 1 if isinstance(d, int) and d & (d - 1) == 0 else None
-    ok = sh is not None and 1 << sh == MT
-    rep.ob("C07.R4", rtd, f"max_tile_idx = len(data) >> {sh} agrees with MAX_TILE_SIZE = {MT}", ok,
-           "" if ok else "number of tiles does not match the tile size: rows are lost or tiles overlap", key="C07.R4@tiles:count")
-    loops = [n for n in body_walk(rtd) if isinstance(n, ast.While)]
-    ok = bool(loops) and U(loops[0].test).replace(" ", "") == "tile_idx<=max_tile_idx" and "tile_idx=0" in s and any(
-        isinstance(n, ast.AugAssign) and U(n.target) == "tile_idx" and try_const(n.value) == 1 and getattr(n, "_parent", None) is loops[0] for n in body_walk(rtd))
-    rep.ob("C07.R4", loops[0] if loops else rtd, "tiles 0..max_tile_idx are each written once", ok, "", key="C07.R4@tiles:loop")
-    if loops:
-        lp = loops[0]
-        rs = [n for n in lp.body if isinstance(n, ast.Assign) and U(n.targets[0]) == "row_start"]
-        rs_l = lin(rs[0].value, env) if rs else None
-        ok = _eq(rs_l, Lin(0, {"tile_idx": MT}))
-        rep.ob("C07.R4", rs[0] if rs else lp, f"row_start = tile_idx * {MT}", ok, "", key="C07.R4@tiles:row_start")
-        br = [n for n in lp.body if isinstance(n, ast.If) and "len(data)" in U(n.test)]
-        ok = False
-        if br:
-            b = br[0]
-            t = U(b.test).replace(" ", "").strip("()")
-            def vals(block):
-                d = {}
-                for x in block:
-                    if isinstance(x, ast.Assign):
-                        d[U(x.targets[0])] = lin(x.value, env)
-                return d
-            a1, a2 = vals(b.body), vals(b.orelse)
-            cond_ok = t in ("len(data)-row_start>MAX_TILE_SIZE", "(len(data)-row_start)>MAX_TILE_SIZE")
-            RS = Lin(0, {"row_start": 1})
-            LEN = Lin(0, {"len(data)": 1})
-            def sub(x, d):
-                if x is None:
-                    return None
-                return x.subst("num_rows", d["num_rows"]) if d.get("num_rows") is not None else x
-            full = _eq(a1.get("num_rows"), Lin(MT)) and _eq(sub(a1.get("row_end"), a1), RS + Lin(MT))
-            last = _eq(a2.get("num_rows"), LEN - RS) and _eq(sub(a2.get("row_end"), a2), LEN)
-            ok = cond_ok and full and last
-        rep.ob("C07.R4", br[0] if br else lp, "full tiles hold MAX_TILE_SIZE rows, the last tile the remainder up to len(data)", ok,
-               "" if ok else "tile row ranges do not partition range(len(data))", key="C07.R4@tiles:partition")
-        rl = [n for n in ast.walk(lp) if isinstance(n, ast.For) and U(n.iter).replace(" ", "") == "range(row_start,row_end)"]
-        ok = bool(rl) and any(isinstance(c, ast.Call) and last_attr(c.func) == "recalculate_row_info" and [U(a) for a in c.args] == ["table_id", "data", "row_start", U(rl[0].target)] for c in ast.walk(rl[0])) \
-            and any(isinstance(c, ast.Call) and U(c.func) == "tile.rowInfos.append" for c in ast.walk(rl[0]))
-        rep.ob("C07.R4", rl[0] if rl else lp, "every row of the tile is encoded with the tile's first row as offset, in order", ok, "", key="C07.R4@tiles:rows")
-        ok = "tile_ref.tileid=tile_idx" in s and "base_data_store.tiles.tile_size=MAX_TILE_SIZE" in s and "'numrows':num_rows" in s
-        rep.ob("C07.R4", lp, "tile reference carries tileid = tile index, tile_size = MAX_TILE_SIZE, numrows = rows in tile", ok, "", key="C07.R4@tiles:ref")
-        ok = "tile_ref.tile.MergeFrom(TSPMessages.Reference(identifier=tile_id))" in s and "base_data_store.tiles.tiles.append(tile_ref)" in s and "base_data_store.tiles.ClearField('tiles')" in s
-        rep.ob("C07.R4", lp, "old tile references are dropped and each new tile is referenced", ok, "", key="C07.R4@tiles:refs")
+    # ---- R4 tile arithmetic (semantic model of the tile loop)
+    from ..tiler import model as tiler_model
+    tm = tiler_model(repo)
+    rtd = tm["func"]
+    MT = tm["MT"]
+    rep.ob("C07.R4", tm["tile_loop"], f"number of tiles = (len(data) >> {tm['shift']}) + 1 agrees with MAX_TILE_SIZE = {MT}", tm["count_ok"],
+           "" if tm["count_ok"] else "number of tiles does not match the tile size: rows are lost or tiles overlap", key="C07.R4@tiles:count")
+    rep.ob("C07.R4", tm["tile_loop"], "tiles 0..max_tile_idx are each written once", tm["loop_ok"], "; ".join(x for x in tm["problems"] if "tile indices" in x), key="C07.R4@tiles:loop")
+    rep.ob("C07.R4", tm["rows_loop"], f"row_start = tile index * {MT}", tm["row_start_ok"], "; ".join(x for x in tm["problems"] if "first row of tile" in x), key="C07.R4@tiles:row_start")
+    okp = tm["partition_ok"] and tm["numrows_ok"]
+    rep.ob("C07.R4", tm["rows_loop"], "full tiles hold MAX_TILE_SIZE rows, the last tile the remainder up to len(data)", okp,
+           "; ".join(x for x in tm["problems"] if "partition" in x or "numrows" in x) or ("" if okp else "tile row ranges do not partition range(len(data))"), key="C07.R4@tiles:partition")
+    okr = tm["rows_ok"] and tm["append_ok"]
+    rep.ob("C07.R4", tm["rows_loop"], "every row of the tile is encoded with the tile's first row as offset, in order", okr,
+           "; ".join(x for x in tm["problems"] if "does not encode row" in x or "not appended" in x), key="C07.R4@tiles:rows")
+    okt = tm["ref_ok"] and tm["tile_size_ok"] and tm["numrows_ok"]
+    rep.ob("C07.R4", tm["tile_loop"], "tile reference carries tileid = tile index, tile_size = MAX_TILE_SIZE, numrows = rows in tile", okt,
+           "; ".join(x for x in tm["problems"] if "tileid" in x or "tile_size" in x or "numrows" in x), key="C07.R4@tiles:ref")
+    rep.ob("C07.R4", tm["tile_loop"], "old tile references are dropped and each new tile is referenced", tm["refs_ok"],
+           "; ".join(x for x in tm["problems"] if "old tile references" in x), key="C07.R4@tiles:refs")
     # tile_row_index + tileid * tile_size == row
-    tri = [n for n in body_walk(rri) if isinstance(n, ast.Assign) and U(n.targets[0]) == "row_info.tile_row_index"]
-    params = [a.arg for a in rri.args.args]
-    ok = bool(tri) and _eq(lin(tri[0].value), Lin(0, {"row": 1, "tile_row_offset": -1})) and params[3:5] == ["tile_row_offset", "row"]
+    tri = [rp["tile_row_index"]] if rp.get("tile_row_index") is not None else []
+    params = rp["params"]
+    ok = bool(tri) and len(params) >= 5 and _eq(lin(tri[0].value), Lin(0, {params[4]: 1, params[3]: -1})) and tm["rows_ok"]
     rep.ob("C07.R4", tri[0] if tri else rri, "tile_row_index = row - (first row of the tile)", ok,
            "" if ok else "the declared row index does not identify the row (tile_row_index + tileid*tile_size must equal row)", key="C07.R4@tile_row_index")
-    ok = "table_model.number_of_rows=len(data)" in s and "table_model.number_of_columns=len(data[0])" in s
-    rep.ob("C07.R4", rtd, "declared dimensions are taken from the grid", ok, "", key="C07.R4@dims")
-    rh = repo.func("model.py", "_NumbersModel.recalculate_row_headers")
-    sh_ = U(rh).replace(" ", "")
-    ok = "forrowinrange(len(data))" in sh_ and "index=row" in sh_ and "numberOfCells=len(data[row])" in sh_
-    rep.ob("C07.R4", rh, "one row header per grid row with its own index", ok, "", key="C07.R4@row-headers")
-    ch = repo.func("model.py", "_NumbersModel.recalculate_column_headers")
-    sc = U(ch).replace(" ", "")
-    ok = "index=col" in sc and "enumerate(col_data)" in sc and "zip(*data)" in sc
-    rep.ob("C07.R4", ch, "one column header per grid column with its own index", ok, "", key="C07.R4@col-headers")
-    last = [n for n in rtd.body if isinstance(n, ast.Expr)][-1] if rtd.body else None
-    ok = last is not None and U(last.value) == "self.objects.update_object_file_store()" and last is rtd.body[-1]
-    rep.ob("C07.R4", rtd, "objects are copied to the file store after the last tile", ok, "", key="C07.R4@copy-after")
+    rep.ob("C07.R4", rtd, "declared dimensions are taken from the grid", tm["dims_ok"], "", key="C07.R4@dims")
+    from ..headers import model as headers_model
+    for axis in ("row", "col"):
+        hm = headers_model(repo, axis)
+        rep.ob("C07.R4", hm["header"], f"one {'row' if axis == 'row' else 'column'} header per grid {'row' if axis == 'row' else 'column'} with its own index", not hm["problems"],
+               "; ".join(hm["problems"]), key=f"C07.R4@{axis}-headers")
+    rep.ob("C07.R4", rtd, "objects are copied to the file store after the last tile", tm["copy_after_ok"], "", key="C07.R4@copy-after")
     rep.extra["template_sites"] = n_sites
     rep.floor("C07.R1", 10)
     rep.floor("C07.R2", 8)
     rep.floor("C07.R3", 5)
     rep.floor("C07.R4", 12)
+
+
+def expand_values(func, node):
+    """``node`` with single-assignment locals replaced by their (any) value expression."""
+    from ..symexec import _unwrap_alias
+    return _unwrap_alias(func, node) if isinstance(node, ast.Name) else node
+
+
+def _copy_back_problems(cp):
+    """copy_object_to_iwa_file: for the archive whose header id matches, the stored object is overwritten, its references
+    are recomputed, and (when there are any) the header's reference list is emptied and refilled with them."""
+    from ..symexec import body_paths, expand_aliases
+    params = [a.arg for a in cp.args.args]
+    if len(params) != 3:
+        return ["parameter list changed"]
+    _f, obj, oid = params
+    loops = [n for n in cp.body if isinstance(n, ast.For)]
+    if len(loops) != 1 or not isinstance(loops[0].target, ast.Name):
+        return ["loop over the archives not found"]
+    lp = loops[0]
+    arch = lp.target.id
+    X = lambda n: U(expand_aliases(cp, n)).replace(" ", "")  # noqa: E731
+    stored = f"{arch}.objects[0]"
+    reflist = f"{arch}.header.message_infos[0].object_references"
+    probs = []
+    n_match = 0
+    for conds, steps, end in body_paths(lp.body):
+        match = None
+        has_refs = None
+        for t, o in conds:
+            tx = X(t)
+            if tx in (f"{arch}.header.identifier=={oid}", f"{oid}=={arch}.header.identifier"):
+                match = o
+            elif tx in (f"{arch}.header.identifier!={oid}", f"{oid}!={arch}.header.identifier"):
+                match = not o
+            elif tx.startswith("len(") and tx.endswith(")>0"):
+                has_refs = o
+            elif tx.startswith("len(") and tx.endswith(")==0"):
+                has_refs = not o
+            elif tx.startswith("not") or not any(ch in tx for ch in "=<>"):
+                has_refs = (not o) if tx.startswith("not") else o
+        copies = [c for st in steps for c in ast.walk(st) if isinstance(c, ast.Call) and last_attr(c.func) == "CopyFrom"]
+        if match is None:
+            probs.append("a path through the loop does not test the archive's identifier")
+            continue
+        if not match:
+            if copies:
+                probs.append("an archive with another identifier is overwritten")
+            continue
+        n_match += 1
+        if not (len(copies) == 1 and X(copies[0].func.value) == stored and [X(a) for a in copies[0].args] == [obj]):
+            probs.append("the stored object is not overwritten with the live one")
+        fr = [c for st in steps for c in ast.walk(st) if isinstance(c, ast.Call) and call_name(c) == "find_references"]
+        if not (len(fr) == 1 and X(fr[0].args[0]) == stored):
+            probs.append("references are not recomputed from the rewritten object")
+            continue
+        refs = U(fr[0].args[1])
+        if has_refs is False:
+            continue
+        clears = [st for st in steps if isinstance(st, ast.While) and X(st.test) in (f"len({reflist})>0", reflist) and any(
+            isinstance(c, ast.Call) and last_attr(c.func) == "pop" and X(c.func.value) == reflist for c in ast.walk(st))]
+        clears += [st for st in steps if isinstance(st, ast.Delete) and X(st.targets[0]) == f"{reflist}[:]"]
+        fills = [st for st in steps if isinstance(st, ast.For) and U(st.iter) == refs and any(
+            isinstance(c, ast.Call) and last_attr(c.func) == "append" and X(c.func.value) == reflist and U(c.args[0]) == U(st.target) for c in ast.walk(st))]
+        fills += [st for st in steps if isinstance(st, ast.Expr) and isinstance(st.value, ast.Call) and last_attr(st.value.func) == "extend" and X(st.value.func.value) == reflist
+                  and U(st.value.args[0]) == refs]
+        if not clears or not fills or steps.index(clears[0]) > steps.index(fills[0]):
+            probs.append("the header's object_references are not emptied and then refilled with the recomputed references")
+    if n_match == 0:
+        probs.append("no path handles the archive whose identifier matches")
+    return list(dict.fromkeys(probs))
 
 
 def _anc(n):
